@@ -2,6 +2,7 @@ SPECIFICATION FairSpec
 CONSTANTS
   Line = 2
   NCaches = 1
+  TrackWrites = TRUE
   MaxInFlight = 1
   MCReqs <- MCReqSetQ
   MaxReq = 2
